@@ -183,18 +183,20 @@ package sql
 // C17: XA branches. Environment (assumed): the XA resource of the target connection as a state
 // machine (ghost.xa_state: 0 none, 1 active, 2 idle, 3 prepared, 4 committed, 5 rolled back); a
 // command that fails leaves the state as it was; ghost.xa_illegal records a command issued in a state
-// in which the XA protocol does not allow it (rollback is allowed from active, idle and prepared: the
-// code always tries END first), ghost.xa_mismatch one issued under another identifier than XA START.
+// in which the XA protocol does not allow it (rollback is allowed from idle and prepared, and from
+// active only after XA END was attempted and failed), ghost.xa_mismatch one issued under another identifier than XA START.
 //@ ghost var xa_state int
 //@ ghost var xa_illegal bool
 //@ ghost var xa_mismatch bool
 //@ ghost var xa_id string
+//@ ghost var xa_end_tried bool
 //@ iface (xa.XAResource).Start
 //@   modifies ghost.xa_state, ghost.xa_illegal, ghost.xa_id
 //@   ensures ghost.xa_illegal == (old(ghost.xa_illegal) || old(ghost.xa_state) != 0)
 //@   ensures (result == nil ==> ghost.xa_state == 1 && ghost.xa_id == xid) && (result != nil ==> ghost.xa_state == old(ghost.xa_state) && ghost.xa_id == old(ghost.xa_id))
 //@ iface (xa.XAResource).End
-//@   modifies ghost.xa_state, ghost.xa_illegal, ghost.xa_mismatch
+//@   modifies ghost.xa_state, ghost.xa_illegal, ghost.xa_end_tried, ghost.xa_mismatch
+//@   ensures ghost.xa_end_tried
 //@   ensures ghost.xa_illegal == (old(ghost.xa_illegal) || old(ghost.xa_state) != 1) && ghost.xa_mismatch == (old(ghost.xa_mismatch) || xid != ghost.xa_id)
 //@   ensures (result == nil ==> ghost.xa_state == 2) && (result != nil ==> ghost.xa_state == old(ghost.xa_state))
 //@ iface (xa.XAResource).XAPrepare
@@ -207,7 +209,7 @@ package sql
 //@   ensures (result == nil ==> ghost.xa_state == 4) && (result != nil ==> ghost.xa_state == old(ghost.xa_state))
 //@ iface (xa.XAResource).Rollback
 //@   modifies ghost.xa_state, ghost.xa_illegal, ghost.xa_mismatch
-//@   ensures ghost.xa_illegal == (old(ghost.xa_illegal) || (old(ghost.xa_state) != 1 && old(ghost.xa_state) != 2 && old(ghost.xa_state) != 3)) && ghost.xa_mismatch == (old(ghost.xa_mismatch) || xid != ghost.xa_id)
+//@   ensures ghost.xa_illegal == (old(ghost.xa_illegal) || (old(ghost.xa_state) != 1 && old(ghost.xa_state) != 2 && old(ghost.xa_state) != 3) || (old(ghost.xa_state) == 1 && !old(ghost.xa_end_tried))) && ghost.xa_mismatch == (old(ghost.xa_mismatch) || xid != ghost.xa_id)
 //@   ensures (result == nil ==> ghost.xa_state == 5) && (result != nil ==> ghost.xa_state == old(ghost.xa_state))
 //@ ext seata.apache.org/seata-go/pkg/datasource/sql/xa.CreateXAResource
 //@   ensures result1 == nil ==> result0 != nil
@@ -269,7 +271,7 @@ package sql
 //@   requires c != nil && c.Conn != nil && c.Conn.txCtx != nil && c.Conn.res != nil && c.Conn.targetConn != nil && c.xaBranchXid != nil
 //@   requires ghost.xa_state == 0 && !ghost.xa_illegal && !ghost.xa_mismatch
 //@   let id := c.xaBranchXid.xid + "-" + ufs("fmtuint", c.xaBranchXid.branchId)
-//@   modifies c.xaResource, c.isConnKept, syncmap(c.Conn.res, "keeper"), ghost.xa_state, ghost.xa_illegal, ghost.xa_mismatch, ghost.xa_id
+//@   modifies c.xaResource, c.isConnKept, syncmap(c.Conn.res, "keeper"), ghost.xa_state, ghost.xa_illegal, ghost.xa_end_tried, ghost.xa_mismatch, ghost.xa_id
 //@   ensures legal: !ghost.xa_illegal && !ghost.xa_mismatch
 //@   ensures started: result == nil ==> ghost.xa_state == 1 && ghost.xa_id == id && c.xaResource != nil
 //@   ensures failed-start-leaves-nothing-active: result != nil && ghost.xa_state == 1 ==> called("Rollback#1")
@@ -282,7 +284,7 @@ package sql
 //@   let live := !c.Conn.autoCommit && c.xaActive && c.xaBranchXid != nil
 //@   requires live ==> c.xaResource != nil && ghost.xa_state == 1 && ghost.xa_id == id
 //@   requires !ghost.xa_illegal && !ghost.xa_mismatch
-//@   modifies c.xaActive, c.xaBranchXid, c.branchRegisterTime, c.prepareTime, c.isConnKept, syncmap(c.Conn.res, "keeper"), ghost.xa_state, ghost.xa_illegal, ghost.xa_mismatch
+//@   modifies c.xaActive, c.xaBranchXid, c.branchRegisterTime, c.prepareTime, c.isConnKept, syncmap(c.Conn.res, "keeper"), ghost.xa_state, ghost.xa_illegal, ghost.xa_end_tried, ghost.xa_mismatch
 //@   ensures legal: !ghost.xa_illegal && !ghost.xa_mismatch
 //@   ensures end-then-prepare: live && result == nil ==> ghost.xa_state == 3
 //@   ensures failure-is-an-error: live && ghost.xa_state != 3 ==> result != nil
@@ -303,7 +305,7 @@ package sql
 //@   let live := !c.Conn.autoCommit && c.xaActive && c.xaBranchXid != nil && !c.rollBacked
 //@   requires live ==> c.xaResource != nil && c.tx != nil && ghost.xa_state == 1 && ghost.xa_id == id
 //@   requires !ghost.xa_illegal && !ghost.xa_mismatch
-//@   modifies c.xaActive, c.xaBranchXid, c.branchRegisterTime, c.prepareTime, c.isConnKept, syncmap(c.Conn.res, "keeper"), ghost.xa_state, ghost.xa_illegal, ghost.xa_mismatch, ghost.dtx
+//@   modifies c.xaActive, c.xaBranchXid, c.branchRegisterTime, c.prepareTime, c.isConnKept, syncmap(c.Conn.res, "keeper"), ghost.xa_state, ghost.xa_illegal, ghost.xa_end_tried, ghost.xa_mismatch, ghost.dtx
 //@   ensures legal: !ghost.xa_illegal && !ghost.xa_mismatch
 //@   ensures end-then-rollback: live && result == nil ==> ghost.xa_state == 5
 //@   ensures never-commits: live ==> ghost.xa_state != 3 && ghost.xa_state != 4
@@ -318,7 +320,7 @@ package sql
 //@   requires cv != nil ==> isT(cv, *tm.ContextVariable) && cv.(*tm.ContextVariable) != nil
 //@   let global := cv != nil && cv.(*tm.ContextVariable).Xid != ""
 //@   requires ghost.xa_state == 0 && !ghost.xa_illegal && !ghost.xa_mismatch && ghost.registers == 0
-//@   modifies c.Conn.autoCommit, c.Conn.txCtx, c.tx, c.branchRegisterTime, c.prepareTime, c.xaBranchXid, c.isConnKept, c.xaResource, c.xaActive, syncmap(c.Conn.res, "keeper"), ghost.xa_state, ghost.xa_illegal, ghost.xa_mismatch, ghost.xa_id, ghost.registers, ghost.reg_ok, ghost.dtx
+//@   modifies c.Conn.autoCommit, c.Conn.txCtx, c.tx, c.branchRegisterTime, c.prepareTime, c.xaBranchXid, c.isConnKept, c.xaResource, c.xaActive, syncmap(c.Conn.res, "keeper"), ghost.xa_state, ghost.xa_illegal, ghost.xa_end_tried, ghost.xa_mismatch, ghost.xa_id, ghost.registers, ghost.reg_ok, ghost.dtx
 //@   ensures legal: !ghost.xa_illegal && !ghost.xa_mismatch
 //@   ensures registered-before-start: global && ghost.xa_state != 0 ==> ghost.registers == 1 && ghost.reg_ok
 //@   ensures refused-registration-starts-nothing: global && ghost.registers == 1 && !ghost.reg_ok ==> result1 != nil && ghost.xa_state == 0 && !called("Start#1")
